@@ -317,8 +317,8 @@ fn twins(rep: &mut Report, rng: &mut Rng, k: u64) {
 }
 
 pub fn run(ctx: &Ctx, rep: &mut Report) {
-    let n = ctx.n(3000, 100_000);
-    let n_tw = ctx.n(600, 20_000);
+    let n = ctx.n(16_000, 300_000);
+    let n_tw = ctx.n(3000, 50_000);
     for k in ctx.cases(n + n_tw) {
         rep.cur_case = k;
         crate::ctx::begin_case(k);
